@@ -27,9 +27,32 @@ for _h in 'get_currency_decimals parse_currency validate_non_commodity_currency 
 HELPER_INC['parse_bic'] = 'inc/prim_bic.vu'
 HELPER_INC['split_at_first'] = 'inc/prim_split.vu'
 HELPER_INC['parse_multiline_text'] = 'inc/prim_lines.vu'
-HELPER_INC['parse_party_identifier'] = 'inc/prim_party.vu'
-HELPER_INC['parse_name_and_address'] = 'inc/prim_party.vu'
-HELPER_INC['validate_multiline_text'] = 'inc/prim_party.vu'
+HELPER_INC['parse_party_identifier'] = 'inc/prim_party_api.vu'
+HELPER_INC['parse_name_and_address'] = 'inc/prim_party_api.vu'
+HELPER_INC['validate_multiline_text'] = 'inc/prim_party_api.vu'
+
+
+# per-function additions for bodies that need a rewrite or a loop clause the generic rules cannot supply
+OVERRIDES = {
+    ('field37', 'Field37H', 'parse'): ['body replace "-parse_amount(remaining)?" => "vx::f64_neg(parse_amount(remaining)?)"',
+                                       'body replace "remaining.chars().next().unwrap()" => "remaining.vx_nth_char(0).unwrap()"',
+                                       'hint before "remaining = vx::str_slice_from(&remaining, 1);" #1',
+                                       '  proof { assert(vstd::utf8::is_ascii_chars(remaining@.subrange(0, 1))) by { assert forall|i: int| 0 <= i < 1 implies (#[trigger] remaining@.subrange(0, 1)[i] as u32) < 128 by { assert(remaining@.subrange(0, 1)[i] == remaining@[0]); } } lemma_skip_ascii(remaining, 1); }'],
+    ('field19', 'Field19', 'to_swift_string'): ['body replace "format_swift_amount(self.amount)" => "format_swift_amount_19(self.amount)"'],
+    ('field61', 'Field61', 'parse'): ['loop 0', '  invariant pos <= input.spec_bytes().len(), vstd::utf8::is_ascii_chars(input@), input.spec_bytes().len() == input@.len()', '  decreases input.spec_bytes().len() - pos'],
+}
+# private helper fns of a field file (renamed when the name collides with a shared helper)
+LOCAL_FNS = {
+    'field19': [('format_swift_amount', 'format_swift_amount_19', ['body replace "format!(\\"{:.2}\\", amount)" => "vx::fmt_f64_fixed(amount, 2)"'])],
+}
+# functions left out of the generated totality units: they need hand-written invariants (covered by a dedicated unit when one exists)
+SKIP = {
+    ('field50', 'Field50A', 'parse'): 'cut after a digit and a slash read through Chars::next: needs a hand-written step',
+    ('field61', 'Field61', 'parse'): 'long scanner with several cursors: needs hand-written invariants',
+    ('field59', 'Field59F', 'parse'): 'needs facts about Chars::next (dedicated unit fld_party)',
+    ('field90', 'Field90C', 'parse'): 'char_indices scan needs a hand-written invariant',
+    ('field90', 'Field90D', 'parse'): 'char_indices scan needs a hand-written invariant',
+}
 
 
 def helper_fns(path):
@@ -52,9 +75,15 @@ def gen(path, su, fu):
     rel = os.path.relpath(path, REPO)
     base = os.path.basename(path)[:-3]
     src = rsx.Source.get(path)
-    cut = src.masked.find('#[cfg(test)]')
+    # test modules (there may be several per file) are skipped
+    skip = []
+    for tm in re.finditer(r'#\[cfg\(test\)\]\s*mod\s+[a-z_0-9]+\s*\{', src.masked):
+        ob_ = tm.end() - 1
+        skip.append((tm.start(), rsx.match_close(src.masked, ob_)))
     names = []
-    for m in re.finditer(r'impl\s+SwiftField\s+for\s+([A-Za-z0-9_]+)\s*\{', src.masked if cut < 0 else src.masked[:cut]):
+    for m in re.finditer(r'impl\s+SwiftField\s+for\s+([A-Za-z0-9_]+)\s*\{', src.masked):
+        if any(a <= m.start() <= b for a, b in skip):
+            continue
         names.append(m.group(1))
     if not names:
         return None
@@ -111,10 +140,27 @@ def gen(path, su, fu):
         w('ensures')
         w('  [C07 total.%s] true' % h)
         w('//@end')
+    for (lname, las, lextra) in LOCAL_FNS.get(base, []):
+        w('//@fn %s %s as=%s' % (rel, lname, las))
+        w('ensures')
+        w('  [C07 total.%s.%s] true' % (base, las))
+        for x in lextra:
+            w(x)
+        w('//@end')
     for n, impl, f in fns:
+        if (base, n, f) in SKIP:
+            w('// NOT COVERED here: %s::%s -- %s' % (n, f, SKIP[(base, n, f)]))
+            if f == 'parse':
+                w('//@stub %s::parse is not under contract in this unit (%s); callers in this unit only need it to return' % (n, SKIP[(base, n, f)]))
+                w('impl %s { #[verifier::external_body] pub fn parse(input: &str) -> (r: crate::cr::Result<%s>) { unimplemented!() } }' % (n, n))
+                w('//@endstub')
+            continue
         w('//@fn %s %s in "%s" impl=%s' % (rel, f, impl, n))
         w('ensures')
         w('  [C07 total.%s.%s] true' % (n, f))
+        w('fmtcat *')
+        for extra in OVERRIDES.get((base, n, f), []):
+            w(extra)
         w('//@end')
     w('')
     w('} // verus!')
